@@ -11,7 +11,9 @@ package main
 import (
 	"context"
 	"database/sql/driver"
+	"encoding/json"
 	"fmt"
+	"io/ioutil"
 	"path/filepath"
 	"reflect"
 	"runtime"
@@ -35,6 +37,9 @@ type Case struct {
 	Seed   uint64 `json:"seed"`
 	Preset string `json:"preset,omitempty"`
 	Origin string `json:"origin,omitempty"`
+	// Intense (failing-input search): more live queries and operations, three times as many undecodable
+	// events, events held back longer, writes issued while queries are still on their first run.
+	Intense bool `json:"intense,omitempty"`
 }
 
 const database = "testdb"
@@ -468,6 +473,9 @@ func runCase(schema *sqlgen.Schema, c Case) (res *result) {
 	}
 
 	corruptPct := 12
+	if c.Intense {
+		corruptPct = 35
+	}
 	minimal := c.Preset == "undecodable-event-after-schema-change"
 	if minimal { // one live query on all users, one upsert, the event carries one column more than the cached column map
 		corruptPct = 100
@@ -559,6 +567,9 @@ func runCase(schema *sqlgen.Schema, c Case) (res *result) {
 
 	// live queries
 	nq := 1 + r.Intn(3)
+	if c.Intense {
+		nq = 2 + r.Intn(4)
+	}
 	if minimal {
 		nq = 1
 	}
@@ -617,6 +628,9 @@ func runCase(schema *sqlgen.Schema, c Case) (res *result) {
 
 	// write history
 	nops := 3 + r.Intn(8)
+	if c.Intense {
+		nops = 6 + r.Intn(14)
+	}
 	if minimal {
 		nops = 1
 		for _, q := range e.queries { // let the live query finish its first run
@@ -724,9 +738,13 @@ func runCase(schema *sqlgen.Schema, c Case) (res *result) {
 			e.pending = append(e.pending, &pushed{table: "users", kind: "write", rows: [][]interface{}{{int64(1)}}, foreign: true})
 			e.mu.Unlock()
 		}
-		switch r.Intn(4) {
-		case 0:
-		case 1:
+		hold := 4
+		if c.Intense {
+			hold = 8 // events stay undelivered across more operations
+		}
+		switch k := r.Intn(hold); {
+		case k == 0 || k >= 4:
+		case k == 1:
 			deliver(1)
 		default:
 			deliver(1 << 20)
@@ -864,7 +882,25 @@ func main() {
 	r := vh.NewRng(o.Seed)
 
 	var cases []Case
-	if o.Replay != "" {
+	searching := o.Search != ""
+	if searching {
+		// failing-input search: a history is determined by its seed, so the variants of a disagreeing history
+		// are fresh histories drawn with the intense settings (its own seed first, then neighbours)
+		if b, err := ioutil.ReadFile(o.Search); err == nil {
+			for _, line := range strings.Split(string(b), "\n") {
+				var w struct {
+					Case Case `json:"case"`
+				}
+				if strings.TrimSpace(line) != "" && json.Unmarshal([]byte(line), &w) == nil && len(cases) < o.N {
+					w.Case.Intense, w.Case.Origin = true, "search-seed"
+					cases = append(cases, w.Case)
+				}
+			}
+		}
+		for len(cases) < o.N {
+			cases = append(cases, Case{Seed: r.U64(), Intense: true, Origin: "search"})
+		}
+	} else if o.Replay != "" {
 		var c Case
 		if vh.ReadReplayCase(o.Replay, &c) {
 			c.Origin = "replay"
@@ -900,6 +936,16 @@ func main() {
 
 	g := livesim.NewTerms()
 	var terms []string
+	if searching {
+		for i, res := range results {
+			for _, f := range res.failures {
+				run.Fail(i, f.Signature, f.Detail, f.Case)
+			}
+			run.Count(res.key, res.nontriv)
+		}
+		run.Finish()
+		return
+	}
 	for i, res := range results {
 		for _, f := range res.failures {
 			run.Fail(i, f.Signature, f.Detail, f.Case)
